@@ -71,9 +71,9 @@ PROPS.update({
                      "rejection leaves the state unchanged: checked on the real code after every rejected batch (coin root, transaction set)"]),
     "C15": stf_prop(["STF/Proofs/Pool.vo", "STF/Proofs/SealCoins.vo", "STF/Proofs/SealSupply.vo", "STF/Proofs/PoolKeys.vo", "STF/Proofs/SealLift.vo", "STF/Proofs/Witness2.vo"], ST_COINS | ST_POOLS,
                     ["sums below 2^128 (the supply bound of C09) in the arithmetic theorems", "PoolKey::from_bytes result is an oracle field; its canonicality test is modelled"]),
-    "C16": stf_prop(["STF/Proofs/Pool.vo", "STF/Proofs/SealSupply.vo", "STF/Proofs/SealLift.vo", "STF/Proofs/Witness2.vo"], ST_POOLS | ST_COINS,
-                    ["proved: backing of every liquidity token (coins + tokens parked in reserves <= recorded liquidity) is preserved by a whole seal; a batch cannot create an existing custom denomination outside faucets (C01_batch_supply); the positivity of the built-in reserves over histories is evaluated on every sealed state of the stream",
-                     "request coins as declared, distinct ids, sums below 2^128, no saturation of issued liquidity; faucets of test networks can mint any denomination"]),
+    "C16": stf_prop(["STF/Proofs/Pool.vo", "STF/Proofs/SealSupply.vo", "STF/Proofs/SealLift.vo", "STF/Proofs/SealInv.vo", "STF/Proofs/Witness4.vo"], ST_POOLS | ST_COINS,
+                    ["proved: both clauses together are an invariant of sealing and of accepted batches - a pool that is live (reserves and liquidity >= 1) and backed with room to spare (coins + tokens parked in reserves + 1 <= recorded liquidity) stays so; the built-in pools exist after the bootstrap; both invariants are also evaluated on every sealed state of the stream",
+                     "request coins as declared, distinct ids, sums below 2^128, no saturation of issued liquidity, distinct pools have distinct liquidity tokens; the batch invariant assumes the batch issues none of the token (faucets of test networks can mint any denomination)"]),
     "C20": stf_prop(["STF/Proofs/Counts.vo", "STF/Proofs/PermAccept.vo"], ST_COUNTS | ST_COINS,
                     ["count keys and coin keys live in the same SMT: assumed distinct (hash oracle)", "batch-level theorem under the hash-oracle assumptions HashOK (distinct, new transaction hashes; markers are not coin ids)"]),
     "C05": stf_prop(["STF/Proofs/Fees.vo"], ST_FEES | ST_COINS | ST_CODE,
@@ -113,8 +113,8 @@ MANIFEST_TEXT = {
                      "Hash-oracle assumptions stated as hypotheses.", "Coq proof (gmap fold lemmas, list induction) + differential replay + reflection against an independent map-based spec"),
     "C15": _stf_text("Coq theorems: at seal every coin that is not output 0/1 of a pool request is unchanged; a pool request has kind swap/deposit/withdraw and canonical pool data; every pool named by a block's requests is settled exactly once per phase (the key list has no duplicates); swap_many pays floor(in*other'*995/(own'*1000)) on each side, keeps reserves positive, never decreases the product; pro-rata shares never exceed the total; at the level of the state the reserves of every pool move by what is taken from / paid into the request coins (never less), over all pools and the three phases of a block.",
                      'Arithmetic theorems assume sums below 2^128; request coins as declared (C02).', 'Coq proof (nia over N, induction over settlement loops and pools, sortedness of the key list) + differential replay + reflection'),
-    "C16": _stf_text("Coq theorems: the per-operation arithmetic (swaps keep both reserves >= 1 and the issued liquidity, partial withdrawals keep reserves >= 1, clamped deposit shares never exceed what the pool issued) and, at the level of the state, that the backing of every liquidity token - tokens in coins plus tokens parked in other pools' reserves against the liquidity recorded - is preserved by each phase, by the three phases over all pools, and by a whole seal; the reflection evaluates both invariants on every sealed state.",
-                     'The positivity of built-in reserves over whole histories is checked per observation; faucets of test networks can mint any denomination.', 'Coq proof (potential function over pools and phases) + invariant reflection on every sealed state'),
+    "C16": _stf_text("Coq theorems: both clauses as one invariant - a pool whose reserves and recorded liquidity are >= 1 and whose token is backed with room to spare (tokens in coins + tokens parked in other pools' reserves + 1 <= recorded liquidity; the built-in pools start with 10^9 nobody owns) keeps both through a whole seal (bootstrap, swaps, deposits, withdrawals, peg, subsidy, proposer reward) and through every accepted batch that issues none of the token; swap_many never panics on a live pool and keeps it live under the code's saturating arithmetic; the bootstrap makes the built-in pools exist; the reflection evaluates both invariants on every sealed state.",
+                     "Hypotheses: request coins as declared, distinct coin ids, sums below 2^128, no saturation of issued liquidity, distinct liquidity tokens per pool; faucets of test networks can mint any denomination.", "Coq proof (potential function over pools and phases, liveness through every seal step) + invariant reflection on every sealed state"),
     "C20": _stf_text('Coq theorems: the CountsOk invariant (count entry = number of coins per covenant hash, no entry for none) is preserved by insert_coin (fresh key or same covenant hash), by remove_coin (which never underflows), established by the TIP-906 activation fold, and preserved by a whole accepted batch under the hash-oracle assumptions alone; the reflection regroups the real coin entries after every step.',
                      'Count keys assumed distinct from coin keys.', 'Coq proof (map_fold lemmas, induction) + differential replay + reflection'),
     "C05": _stf_text("Coq theorems over the executable model of apply_tx_batch / seal: weight and minimum-fee formulas, every member of an accepted batch pays at least its minimum fee, fee pool and tips move by exactly the minimum-fee parts and remainders, the proposer reward coin is fee_pool/65536 + tips and both drop by exactly that - for all states, batches and multipliers.",
